@@ -179,18 +179,43 @@ func isIntType(t types.Type) bool {
 	return ok && b.Info()&types.IsInteger != 0
 }
 
-// cmpIndexOperands: indices i such that q.data[i] is passed to q.cmp in fn.
+// cmpIndexOperands: indices i such that q.data[i] is passed to q.cmp in fn,
+// either directly or through a same-package helper (less(i, j)) whose integer
+// parameters index the comparison's operands; the helper's call arguments are
+// then the operands.
 func (m *heapModel) cmpIndexOperands(fn *ssa.Function) []ssa.Value {
+	return m.cmpIndexOperandsDepth(fn, 0)
+}
+
+func (m *heapModel) cmpIndexOperandsDepth(fn *ssa.Function, depth int) []ssa.Value {
 	var out []ssa.Value
 	allInstrs(fn, func(in ssa.Instruction) {
 		call, ok := in.(*ssa.Call)
-		if !ok || !isLoadOfField(call.Call.Value, m.cmpF) {
+		if !ok {
 			return
 		}
-		for _, a := range call.Call.Args {
-			if addr, ok := loadAddr(a); ok {
-				if idx, ok := m.dataIndex(addr); ok {
-					out = append(out, idx)
+		if isLoadOfField(call.Call.Value, m.cmpF) {
+			for _, a := range call.Call.Args {
+				if addr, ok := loadAddr(a); ok {
+					if idx, ok := m.dataIndex(addr); ok {
+						out = append(out, idx)
+					}
+				}
+			}
+			return
+		}
+		callee := staticCallee(&call.Call)
+		if callee == nil || depth >= 2 || callee == fn || callee.Pkg == nil || fn.Pkg == nil || origin(callee).Pkg != origin(fn).Pkg || callee == m.swapFn {
+			return
+		}
+		callee = origin(callee)
+		if len(callee.Blocks) == 0 {
+			return
+		}
+		for _, ix := range m.cmpIndexOperandsDepth(callee, depth+1) {
+			for pi, prm := range callee.Params {
+				if ix == ssa.Value(prm) && pi < len(call.Call.Args) {
+					out = append(out, call.Call.Args[pi])
 				}
 			}
 		}
@@ -198,13 +223,99 @@ func (m *heapModel) cmpIndexOperands(fn *ssa.Function) []ssa.Value {
 	return out
 }
 
+// ruleCmpSign: the result of a user-supplied three-way comparison carries
+// meaning only in its sign.  Every explicit test of such a result against a
+// constant must therefore be invariant under replacing the result by any other
+// value of the same sign: x<0, x<=0, x>0, x>=0, x==0, x!=0 and their integer
+// equivalents (x<1, x<=-1, x>-1, x>=1).  A test like x == -1 or x > 1 is a
+// violation: it treats cmp functions that return a-b differently from
+// cmp.Compare.  Uses that are not a comparison with a constant are not judged.
+func ruleCmpSign(c *Ctx, rule string, fns []*ssa.Function) {
+	n := 0
+	ord := map[string]int{}
+	var judge func(v ssa.Value, site *ssa.Call, fn *ssa.Function, neg bool, seen map[ssa.Value]bool)
+	judge = func(v ssa.Value, site *ssa.Call, fn *ssa.Function, neg bool, seen map[ssa.Value]bool) {
+		if seen[v] {
+			return
+		}
+		seen[v] = true
+		for _, r := range referrersOf(v) {
+			switch r := r.(type) {
+			case *ssa.Phi:
+				judge(r, site, fn, neg, seen)
+			case *ssa.UnOp:
+				if r.Op == token.SUB {
+					judge(r, site, fn, !neg, seen)
+				}
+			case *ssa.BinOp:
+				var k int64
+				op := r.Op
+				if kc, ok := constInt(r.Y); ok && r.X == v {
+					k = kc
+				} else if kc, ok := constInt(r.X); ok && r.Y == v {
+					k = kc
+					switch op { // k op x  ==  x op' k
+					case token.LSS:
+						op = token.GTR
+					case token.LEQ:
+						op = token.GEQ
+					case token.GTR:
+						op = token.LSS
+					case token.GEQ:
+						op = token.LEQ
+					}
+				} else {
+					continue
+				}
+				ok := true
+				switch op {
+				case token.LSS, token.GEQ:
+					ok = k == 0 || k == 1
+				case token.LEQ, token.GTR:
+					ok = k == 0 || k == -1
+				case token.EQL, token.NEQ:
+					ok = k == 0
+				default:
+					continue
+				}
+				n++
+				key := fmt.Sprintf("%s:%s %s %d", fnName(fn), "cmp-result", op, k)
+				ord[key]++
+				if ord[key] > 1 {
+					key = fmt.Sprintf("%s #%d", key, ord[key])
+				}
+				if ok {
+					c.ok(rule, key, r.Pos(), "sign test")
+				} else {
+					c.bad(rule, key, r.Pos(), fmt.Sprintf("the result of the comparison function called at line %d is tested with %s %d, which is not a test of its sign: a comparison function is only required to return a negative, zero or positive value (e.g. a-b), so this branch distinguishes results the contract treats as equal", c.P.Fset.Position(site.Pos()).Line, op, k))
+				}
+			}
+		}
+	}
+	for _, fn := range fns {
+		fn := fn
+		allInstrs(fn, func(in ssa.Instruction) {
+			call, ok := in.(*ssa.Call)
+			if !ok || !isCmpCall(call) {
+				return
+			}
+			judge(call, call, fn, false, map[ssa.Value]bool{})
+		})
+	}
+	_ = n
+}
+
 func runC05(c *Ctx) {
-	c.Explanation = "Decides the two structural faults the property's own rationale names — a wrong parent/child index and a missing sift direction — plus heapify coverage and stoppable Each. R-HEAP-INDEX extracts, from the go/ssa form, the parent form P(j)=⌊(j+c)/d⌋ of sift-up and the child forms a·i+b of sift-down and requires P(child_b(i)) = i for every child (arithmetic on the extracted constants). R-HEAP-BIDIR requires that a slot overwritten at an arbitrary offset is re-ordered in both directions on every path. R-HEAPIFY-COVER requires every bulk re-heapify loop to start at or above the last internal node and run down to 0. Does NOT decide that Front/Pop is minimal for every history, multiset conservation, or Sort's result."
+	c.Explanation = "Decides the two structural faults the property's own rationale names — a wrong parent/child index and a missing sift direction — plus heapify coverage and stoppable Each. R-HEAP-INDEX extracts, from the go/ssa form, the parent form P(j)=⌊(j+c)/d⌋ of sift-up and the child forms a·i+b of sift-down and requires P(child_b(i)) = i for every child (arithmetic on the extracted constants). R-HEAP-BIDIR requires that a slot overwritten at an arbitrary offset is re-ordered in both directions on every path. R-HEAPIFY-COVER requires every bulk re-heapify loop to start at or above the last internal node and run down to 0. (R-CMP-SIGN) comparison results are tested by sign only; (R-REORDER-INSTALLS) Reorder installs its argument on every path; (R-SORT-INPLACE) nothing Sort reaches replaces the buffer by a fresh allocation. Does NOT decide that Front/Pop is minimal for every history, multiset conservation, or Sort's result."
 	c.rule("R-HEAP-INDEX", 3, "parent index of sift-up and child indices of sift-down are mutually inverse; children form one contiguous block; root is nobody's child; sift-up stops exactly at the root")
 	c.rule("R-HEAP-BIDIR", 1, "a slot overwritten at an arbitrary offset is followed by sift-down and (unless sift-down moved it, or the slot was cut off) by sift-up on all paths")
 	c.rule("R-HEAPIFY-COVER", 2, "each bulk heapify loop starts at or above the last internal node, steps -1 down to 0 inclusive, and sifts down the loop variable")
 	c.rule("R-YIELD", 1, "Queue.Each stops calling f once it returned false")
+	c.rule("R-CMP-SIGN", 3, "every test of a comparison function's result against a constant is a test of its sign only")
+	c.rule("R-REORDER-INSTALLS", 1, "Reorder stores its argument as the current comparison on every path")
+	c.rule("R-SORT-INPLACE", 1, "no function reachable from Sort replaces the queue's buffer by anything but a re-slice of itself")
 	c.rule("R-SET-REPLACES", 2, "Set resizes the buffer to len(vs) and copies vs in on every path (contents are what was put in)")
+	ruleCmpSign(c, "R-CMP-SIGN", c.P.PkgFuncs("heapq"))
 	m := buildHeapModel(c)
 	if m == nil {
 		return
@@ -584,6 +695,69 @@ func runC05(c *Ctx) {
 
 	ruleYield(c, []*ssa.Function{P.Func("heapq", "Queue", "Each")})
 
+	// ---- R-REORDER-INSTALLS: Reorder makes its argument the current comparison on every path (however small the queue)
+	if ro := P.Func("heapq", "Queue", "Reorder"); ro != nil && len(ro.Params) == 2 {
+		c.sawFn(fnName(ro))
+		installs := func(in ssa.Instruction) bool {
+			st, ok := in.(*ssa.Store)
+			if !ok {
+				return false
+			}
+			fa, ok := st.Addr.(*ssa.FieldAddr)
+			if !ok {
+				return false
+			}
+			if _, f := fieldVarOf(fa); !sameField(f, m.cmpF) {
+				return false
+			}
+			v := st.Val
+			if ct, ok := v.(*ssa.ChangeType); ok {
+				v = ct.X
+			}
+			return v == ssa.Value(ro.Params[1])
+		}
+		okI, wit := mustPassToExit(P, firstInstr(ro), installs)
+		if installs(firstInstr(ro)) {
+			okI = true
+		}
+		c.judge(okI, "R-REORDER-INSTALLS", "heapq.(*Queue).Reorder:comparison installed", ro.Pos(), "the new comparison is stored on every path", "Reorder can return without installing the new comparison ("+wit+"): later Add/Pop keep ordering by the old one")
+	}
+	// ---- R-SORT-INPLACE: Sort orders the caller's slice through a queue built ON that slice; nothing it reaches may
+	// move the queue to a fresh buffer
+	if sortFn := P.Func("heapq", "", "Sort"); sortFn != nil {
+		c.sawFn(fnName(sortFn))
+		var bad []string
+		n := 0
+		for _, f := range buildCallScope(sortFn).fns {
+			allInstrs(f, func(in ssa.Instruction) {
+				st, ok := in.(*ssa.Store)
+				if !ok {
+					return
+				}
+				fa, ok := st.Addr.(*ssa.FieldAddr)
+				if !ok {
+					return
+				}
+				if _, fld := fieldVarOf(fa); !sameField(fld, m.dataF) {
+					return
+				}
+				if _, fresh := fa.X.(*ssa.Alloc); fresh {
+					return // building the queue value itself (NewWithData stores the caller's slice)
+				}
+				n++
+				switch v := st.Val.(type) {
+				case *ssa.Slice:
+					if isLoadOfField(v.X, m.dataF) {
+						return // re-slicing the same buffer
+					}
+				case *ssa.Parameter:
+					return
+				}
+				bad = append(bad, fnName(f)+" at "+P.pos(st.Pos()))
+			})
+		}
+		c.judge(len(bad) == 0, "R-SORT-INPLACE", "heapq.Sort:buffer stays the argument", sortFn.Pos(), fmt.Sprintf("%d buffer updates reachable from Sort, all re-slices of the same buffer", n), "Sort relies on the queue living in its argument, but a function it reaches replaces the buffer: "+strings.Join(bad, ", ")+" — from then on the sorted elements land in a private copy")
+	}
 	// ---- R-SET-REPLACES: Set discards the previous contents on every path
 	if set := P.Func("heapq", "Queue", "Set"); set != nil && len(set.Params) == 2 {
 		c.sawFn(fnName(set))
@@ -1133,4 +1307,95 @@ func affLen(v ssa.Value, m *heapModel, fn *ssa.Function) (aff, bool) {
 		return aff{}, false
 	}
 	return affOf(v, lenv, nil, 0)
+}
+
+// isCmpCall: a dynamic call (through a field, parameter, captured variable or
+// closure value) of a function with two like-typed parameters and one integer
+// result — the shape of every user-supplied three-way comparison in this
+// repository.
+func isCmpCall(call *ssa.Call) bool {
+	if call.Call.IsInvoke() {
+		return false
+	}
+	if staticCallee(&call.Call) != nil {
+		if _, isClosure := call.Call.Value.(*ssa.MakeClosure); !isClosure {
+			return false
+		}
+	}
+	sig, ok := call.Call.Value.Type().Underlying().(*types.Signature)
+	if !ok || sig.Params().Len() != 2 || sig.Results().Len() != 1 || !isIntType(sig.Results().At(0).Type()) {
+		return false
+	}
+	_, tp0 := sig.Params().At(0).Type().(*types.TypeParam)
+	_, tp1 := sig.Params().At(1).Type().(*types.TypeParam)
+	return types.Identical(sig.Params().At(0).Type(), sig.Params().At(1).Type()) || (tp0 && tp1)
+}
+
+// naturalCmpVerdict judges a comparison value handed to a constructor for a
+// cmp.Ordered key type.  The natural order the documentation promises is
+// cmp.Compare's, which is total even with NaN keys (NaN sorts first, equals
+// itself).  A hand-written three-way comparison built on < and > alone makes
+// NaN "equal" to every key: lookups, replacement and iteration order then
+// disagree with any reference keyed by cmp.Compare.  ok=true when v is
+// cmp.Compare (possibly wrapped by a conversion) or a repository function that
+// reaches cmp.Compare or handles x != x; ok=false with the offending construct
+// otherwise; judged=false when v cannot be resolved to a function.
+func naturalCmpVerdict(P *Prog, v ssa.Value) (ok bool, judged bool, why string) {
+	for {
+		switch x := v.(type) {
+		case *ssa.ChangeType:
+			v = x.X
+			continue
+		case *ssa.MakeClosure:
+			v = x.Fn
+			continue
+		}
+		break
+	}
+	f, isFn := v.(*ssa.Function)
+	if !isFn {
+		return false, false, ""
+	}
+	f = origin(f)
+	if f.Pkg != nil && f.Pkg.Pkg.Path() == "cmp" && f.Name() == "Compare" {
+		return true, true, "cmp.Compare"
+	}
+	if f.Blocks == nil {
+		return false, false, ""
+	}
+	var rel ssa.Instruction
+	nanAware := false
+	for _, g := range buildCallScope(f).fns {
+		allInstrs(g, func(in ssa.Instruction) {
+			switch x := in.(type) {
+			case *ssa.BinOp:
+				if _, isTP := x.X.Type().(*types.TypeParam); !isTP {
+					if b, okb := x.X.Type().Underlying().(*types.Basic); !okb || b.Info()&types.IsFloat == 0 {
+						return
+					}
+				}
+				switch x.Op {
+				case token.LSS, token.GTR, token.LEQ, token.GEQ:
+					if rel == nil {
+						rel = in
+					}
+				case token.NEQ, token.EQL:
+					if x.X == x.Y {
+						nanAware = true
+					}
+				}
+			case *ssa.Call:
+				if cal := staticCallee(&x.Call); cal != nil && origin(cal).Pkg != nil {
+					p, n := origin(cal).Pkg.Pkg.Path(), origin(cal).Name()
+					if (p == "cmp" && (n == "Compare" || n == "Less")) || (p == "math" && n == "IsNaN") {
+						nanAware = true
+					}
+				}
+			}
+		})
+	}
+	if rel != nil && !nanAware {
+		return false, true, fmt.Sprintf("%s orders keys of an ordered type parameter with %s at %s and never treats x != x (NaN): NaN compares equal to every key", fnName(f), rel.(*ssa.BinOp).Op, P.pos(rel.Pos()))
+	}
+	return true, true, fnName(f)
 }
